@@ -93,7 +93,8 @@ def main():
             shutil.copy(f"{src}/{demo}", target)  # src == dst on a re-run
             names = re.findall(r"^func (Test\w+)", text, re.M)
             runarg = "-run '^(" + "|".join(names) + ")$'" if names else ""
-            cmd = f"go test -vet=off -count=1 {tags} {runarg} ./{d}/"
+            race = "-race" if re.search(r"go test -race", text) else ""  # demo says it must run under the race detector
+            cmd = f"go test {race} -vet=off -count=1 {tags} {runarg} ./{d}/"
             rc1, out1 = sh(cmd, cwd=wt)
             meta["demo_fails_with_patch"] = rc1 != 0
             sh(f"git apply -R {dst}/patch.diff", cwd=wt)
